@@ -225,8 +225,12 @@ def job(E, version, req, route, ws_string=False, shuffle=False, warmup=False, fa
 
 # ------------------------------------------------------------------ concrete side
 
-NASTY = ["my file & more=100% +#é中%2F e\u0301 \u212b \ufb01.bin",      # also: not stable under NFC / NFKC normalisation "http://tr.example/ipv4:info/ann?x=1&y=2 z&passkey=ab%2Fcd%3D", "http://[::1]/a+b#f", "udp://türk.example:80/%41",
+# the name is also not stable under NFC / NFKC normalisation
+NASTY = ["my file & more=100% +#é中%2F e\u0301 \u212b \ufb01.bin", "http://tr.example/ipv4:info/ann?x=1&y=2 z&passkey=ab%2Fcd%3D", "http://[::1]/a+b#f", "udp://türk.example:80/%41",
          "http://ws.example/dir name/?q=a&b", "http://w2/ä", "http://w3/+"]
+
+
+assert len(NASTY) == 7 and "%2F" in NASTY[1] and "%41" in NASTY[3]
 
 
 def conc_meta(version, model, ws_string=False, shuffle=False):
